@@ -313,8 +313,8 @@ func saveWindow(p SaveWinParams) {
 			wantTracked = absorbed[vb]
 		}
 		_ = wantTracked // position equality is C04's business, not checked here
-		if stored > tracked {
-			vrt.Failf("vb%d stored %d ahead of tracked %d", vb, stored, tracked)
+		if lim := wantTracked; stored > lim {
+			vrt.Failf("vb%d stored %d ahead of the furthest settled/absorbed position %d", vb, stored, lim)
 		}
 		if stored < settled[vb] {
 			vrt.Failf("after the closing save vb%d stored=%d but settled=%d (settled progress left unpersisted): %s", vb, stored, settled[vb], lostBy(vb, stored))
